@@ -211,16 +211,27 @@ def fileCrc (chk : Bool) (st : St) (k : Nat → P) : P :=
     | .ok b =>
       if chk ∧ st.crc ≠ le16 b then .ret (fail st .crc) else k (le16 b)
 
+/-- what `Next()` does with an error of the header read of a second or later sequence: end of input and invalid bytes
+(`io.EOF`, `io.ErrUnexpectedEOF`, `ErrNotFITFile`, `ErrCRCChecksumMismatch`) make it return false — the loop ends
+silently; any other error is a failure of the reader itself: `Next()` returns true and the following `Decode()` returns
+it (the decoder's error is sticky) -/
+def Err.endsIteration : Err → Bool
+  | .io .eof => true
+  | .io .unexpectedEof => true
+  | .notFit => true
+  | .crc => true
+  | _ => false
+
 /-- `for dec.Next() { fit, err := dec.Decode(); if err != nil { break } }` on a fresh decoder.
-`Next()` is true for the first sequence and afterwards exactly when a file header decodes — whatever else
-happens to that header read ends the loop silently. `fuel` bounds the number of sequences. -/
+`Next()` is true for the first sequence and afterwards when a file header decodes or the header read met a
+failure of the reader (`Err.endsIteration`). `fuel` bounds the number of sequences. -/
 def decodeLoop (chk : Bool) : Nat → Bool → List Ev → P
   | 0, _, evs => .ret { evs := evs.reverse, status := none }
   | fuel + 1, first, evs =>
     fileHeader chk
-      (fun e => if first then .ret { evs := evs.reverse, status := some (.io e) }
+      (fun e => if first || !(Err.io e).endsIteration then .ret { evs := evs.reverse, status := some (.io e) }
                 else .ret { evs := evs.reverse, status := none, clean := e == .eof, swallowed := some (.io e) })
-      (fun e => if first then .ret { evs := evs.reverse, status := some e }
+      (fun e => if first || !e.endsIteration then .ret { evs := evs.reverse, status := some e }
                 else .ret { evs := evs.reverse, status := none, swallowed := some e })
       fun h =>
         messages chk h.dataSize h.dataSize { evs := evs } fun st =>
